@@ -418,6 +418,9 @@ impl PartialOrd for Number {
                 Number::Rational(rhs) => {
                     if lhs.to_i32().is_some() {
                         Rational32::from_integer(*lhs as i32).partial_cmp(rhs)
+                    } else if *lhs < 0 {
+                        // below every 32 bit rational
+                        Some(Ordering::Less)
                     } else {
                         Some(Ordering::Greater)
                     }
@@ -429,6 +432,7 @@ impl PartialOrd for Number {
                 Number::Float(rhs) => (**lhs).to_f64().unwrap().partial_cmp(rhs),
                 Number::Rational(rhs) => match lhs.to_i32() {
                     Some(lhs) => Rational32::from_integer(lhs).partial_cmp(rhs),
+                    None if lhs.is_negative() => Some(Ordering::Less),
                     None => Some(Ordering::Greater),
                 },
             },
@@ -442,6 +446,8 @@ impl PartialOrd for Number {
                 Number::Fixnum(rhs) => {
                     if rhs.to_i32().is_some() {
                         lhs.partial_cmp(&Rational32::from_integer(*rhs as i32))
+                    } else if *rhs < 0 {
+                        Some(Ordering::Greater)
                     } else {
                         Some(Ordering::Less)
                     }
@@ -449,6 +455,7 @@ impl PartialOrd for Number {
                 Number::Float(rhs) => lhs.to_f64().unwrap().partial_cmp(rhs),
                 Number::BigInt(rhs) => match rhs.to_i32() {
                     Some(rhs) => lhs.partial_cmp(&Rational32::from_integer(rhs)),
+                    None if rhs.is_negative() => Some(Ordering::Greater),
                     None => Some(Ordering::Less),
                 },
                 Number::Rational(rhs) => lhs.partial_cmp(rhs),
